@@ -224,6 +224,16 @@ def run_shard(ctx):
         gd = gg.twin_worlds(gg.random_admg(rng, rng.randint(2, 4)), rng)
         S = rng.sample(gd["nodes"], rng.randint(1, min(3, len(gd["nodes"]) - 1)))
         apply_ops(ctx, gd, S, True, alias=True, ops=twin_ops)
+    # 2c. large dense graphs, small vertex sets (size-dependent code paths in the edge filters)
+    big_ops = set(SET_OPS) | {"districts", "pre", "get_nodes_in_directed_paths"}
+    nbig = 0
+    for _ in range(ctx.share({"quick": 100, "thorough": 2500}[ctx.tier])):
+        gd = gg.random_admg(rng, rng.randint(10, 15), hostile="none", p_di=rng.choice((0.5, 0.7, 0.9)),
+                            p_bi=rng.choice((0.1, 0.3, 0.6)))
+        nbig += len(gd["di"]) > 32
+        for _k in range(3):
+            apply_ops(ctx, gd, rng.sample(gd["nodes"], rng.randint(1, 4)), True, ops=big_ops)
+    ctx.extras["graphs_with_more_than_32_directed_edges"] = nbig
     # 3. histories
     for _ in range(ctx.share({"quick": 64, "thorough": 1600}[ctx.tier])):
         gd = gg.random_admg(rng, rng.randint(3, 7))
